@@ -361,7 +361,9 @@ func pathVariants(segs []string) (same []string, other []string) {
 		return strings.Join(x, "/")
 	}
 	for i := 0; i <= len(segs); i++ {
-		for _, s := range []string{".", "..", "%20", "nope", "0", "1", "-1"} {
+		// ... incl. the field names of the dag-pb substrate: IPLD addressing of
+		// the underlying node ("Links/0/Hash") is not UnixFS naming
+		for _, s := range []string{".", "..", "%20", "nope", "0", "1", "-1", "Links", "Data", "Links/0/Hash"} {
 			other = append(other, ins(i, s))
 		}
 	}
